@@ -151,7 +151,9 @@ def prepare(res, spec):
     if not ok:
         res.proof_ok = False
         res.proof_notes.append("fact extraction (translator) failed: " + log[-2000:])
-    ok, log = C.lake_build()
+    # the property's own module (with everything it imports) and the model driver: a property is not
+    # reported as unproved because a theorem of another property stopped checking
+    ok, log = C.lake_build([spec["mod"], "driver"])
     if not ok:
         res.proof_ok = False
         # name the failing modules / theorems
@@ -233,7 +235,7 @@ def facts_and_conc(res, spec):
     if kind == "conc" and not getattr(res, "build_failed", False):
         rounds = 20 if res.tier == "thorough" else 3
         binp = os.path.join(C.HARNESS, "bin", "concharness")
-        r = C.run(["go", "build", "-race", "-tags", "verif", "-o", binp, "./cmd/concharness"], cwd=C.HARNESS, env=C.GOENV, timeout=1800)
+        r = C.run(["go", "build"] + C.modfile_args() + ["-race", "-tags", "verif", "-o", binp, "./cmd/concharness"], cwd=C.HARNESS, env=C.GOENV, timeout=1800)
         if r.returncode != 0:
             res.corr_breaks.append(("conc", -1, "concharness does not build", r.stdout[-1500:], ""))
             return
@@ -369,7 +371,9 @@ def correspond(res, spec):
         kind, want = spec["judge"]
         if kind == "hist":
             import pickle
-            jc = os.path.join(wd, "judge.pickle")
+            import hashlib
+            jh = hashlib.sha256(open(judge_hist.__file__, "rb").read()).hexdigest()[:12]
+            jc = os.path.join(wd, f"judge-{jh}.pickle")
             if os.path.exists(jc):
                 allv, allo = pickle.load(open(jc, "rb"))
             else:
@@ -394,6 +398,17 @@ def correspond(res, spec):
                 rp = write_replay(res, stream, ops, impl, model, v["line"], v["msg"])
                 res.violations.append(dict(msg=v["msg"], replay=rp))
             if stream == "pool" and "C19" in want:
+                # the pool's own lock discipline (regenerated table): exhibit the offending path when the kernel rejects it
+                ft = factmod.load()
+                if ft and ft.get("poolFns"):
+                    res.cov["streams"]["factgen-pool"] = dict(functions=len(ft["poolFns"]), mutable_fields=ft.get("poolMutableFields"))
+                    for b in factmod.offending_paths(dict(fns=[dict(x, calls=x.get("calls") or []) for x in ft["poolFns"]]))[:3]:
+                        rp = os.path.join(C.WORK, "replays", f"C19-poolpath-{len(res.violations)}.txt")
+                        os.makedirs(os.path.dirname(rp), exist_ok=True)
+                        with open(rp, "w") as fh:
+                            fh.write("# property C19: the series are computed from pool state read or written outside the pool's lock\n"
+                                     f"kind: {b['kind']}\npath: {' -> '.join(b['path'])}\nat: {b.get('pos', '')}\n" + "".join(f"why: {w}\n" for w in b.get("why", [])))
+                        res.violations.append(dict(msg=f"pool state outside the pool lock: {b['kind']}: {' -> '.join(b['path'])}", replay=rp))
                 ex = stats.get("extra", {})
                 if ex.get("metrics_endpoint_missing_series") or ex.get("metrics_gatherer_agrees") is False:
                     rp = os.path.join(C.WORK, "replays", f"C19-endpoint-{res.seed}.txt")
